@@ -128,8 +128,17 @@ bool ClosureContext::finished() const noexcept {
   return _callback.load(::std::memory_order_relaxed) == SEALED_CALLBACK;
 }
 
-void ClosureContext::depend_vertex_add() noexcept {
-  _waiting_vertex_num.fetch_add(1, ::std::memory_order_acq_rel);
+bool ClosureContext::depend_vertex_add() noexcept {
+  // 计数归零即进入稳态并完成flush，此后到达的节点(例如激活失败后才注入的外部数据触发的)
+  // 不能再让计数重新离开零点，否则会flush两次
+  auto waiting_num = _waiting_vertex_num.load(::std::memory_order_relaxed);
+  do {
+    if (ABSL_PREDICT_FALSE(waiting_num == 0)) {
+      return false;
+    }
+  } while (ABSL_PREDICT_FALSE(!_waiting_vertex_num.compare_exchange_weak(
+      waiting_num, waiting_num + 1, ::std::memory_order_acq_rel)));
+  return true;
 }
 
 void ClosureContext::depend_vertex_sub() noexcept {
